@@ -36,6 +36,10 @@ func main() {
 		cmdLibReplay(os.Args[2:])
 	case "expr-replay":
 		cmdExprReplay(os.Args[2:])
+	case "load-faults":
+		cmdLoadFaults(os.Args[2:])
+	case "load-child":
+		cmdLoadChild(os.Args[2:])
 	case "conc-replay":
 		cmdConcReplay(os.Args[2:])
 	case "gram-replay":
